@@ -49,6 +49,15 @@ DoDel(r)        == "lww" \in Kinds /\ ~IsNone(x[r]) /\ x[r].c.k = "lww"
 DoHSet(r, f, v) == "hash" \in Kinds /\ Local(r, OpHSet(Cur(r), r, clk[r] + 1, f, v))
 DoHDel(r, f)    == "hash" \in Kinds /\ ~IsNone(x[r]) /\ x[r].c.k = "hash" /\ f \in DOMAIN x[r].c.h
                    /\ Local(r, OpHDel(x[r], r, clk[r] + 1, f))
+(* HDEL of a field the hash does not hold: the code stamps the value with the shard's current clock and does not tick it *)
+DoHDelAbsent(r, f) == "hash" \in Kinds /\ ~IsNone(x[r]) /\ x[r].c.k = "hash" /\ f \notin DOMAIN x[r].c.h
+                      /\ x' = [x EXCEPT ![r] = [@ EXCEPT !.ts = Stamp(clk[r], r)]]
+                      /\ steps' = steps + 1 /\ UNCHANGED <<clk, causal, nsets>>
+(* the shard's clocks are shared by all its keys: a register write to another key moves the Lamport clock and, under the *)
+(* causal level, the shard's vector clock                                                                              *)
+Tick(r) == /\ clk' = [clk EXCEPT ![r] = @ + 1] /\ steps' = steps + 1
+           /\ nsets' = [nsets EXCEPT ![r] = IF causal THEN @ + 1 ELSE @]
+           /\ UNCHANGED <<x, causal>>
 DoGcInc(r, n)   == "gcounter" \in Kinds /\ Local(r, OpGcInc(Cur(r), r, clk[r] + 1, n))
 DoPnInc(r, n)   == "pncounter" \in Kinds /\ Local(r, OpPnInc(Cur(r), r, clk[r] + 1, n))
 DoPnDec(r, n)   == "pncounter" \in Kinds /\ Local(r, OpPnDec(Cur(r), r, clk[r] + 1, n))
@@ -69,7 +78,8 @@ Next ==
   \/ \E r \in Replica, v \in Val, e \in {-1, 5, 9} : DoSet(r, v, e)
   \/ \E r \in Replica : DoDel(r)
   \/ \E r \in Replica, f \in Field, v \in Val : DoHSet(r, f, v)
-  \/ \E r \in Replica, f \in Field : DoHDel(r, f)
+  \/ \E r \in Replica, f \in Field : DoHDel(r, f) \/ DoHDelAbsent(r, f)
+  \/ \E r \in Replica : "hash" \in Kinds /\ Tick(r)
   \/ \E r \in Replica, n \in {1, 2} : DoGcInc(r, n) \/ DoPnInc(r, n) \/ DoPnDec(r, n)
   \/ \E r \in Replica, e \in Elem : DoGsAdd(r, e) \/ DoOrAdd(r, e) \/ DoOrRem(r, e)
   \/ \E r, s \in Replica : MergeFrom(r, s)
